@@ -2470,18 +2470,19 @@ section IterNames
 open Sem
 
 /-- **iter_names_order (general).**  The names `repeat in a₁ and … and aₙ and b₁ and …` visits
-are those of the first items followed by those of the remaining items, the latter computed in
-the state the former left: sources are visited in the order written. -/
+are those of the first items followed by those of the remaining items: sources are VISITED in the
+order written.  (They are EVALUATED from the last to the first, as the generated code does: the
+remaining items from the state `s`, the first items in the state those left.) -/
 theorem C04_iter_names_append (as bs : List IterItem) :
     ∀ (f : Nat) (s s2 : S) (zs : List String), iterNames f (as ++ bs) s = .ok (zs, s2) →
-      ∃ xs s1 ys, iterNames f as s = .ok (xs, s1) ∧ iterNames (f - as.length) bs s1 = .ok (ys, s2) ∧
+      ∃ ys s1 xs, iterNames (f - as.length) bs s = .ok (ys, s1) ∧ iterNames f as s1 = .ok (xs, s2) ∧
         zs = xs ++ ys := by
   induction as with
   | nil =>
     intro f s s2 zs h
     cases f with
     | zero => simp [iterNames] at h
-    | succ f => exact ⟨[], s, zs, by simp [iterNames], by simpa using h, rfl⟩
+    | succ f => exact ⟨zs, s2, [], by simpa using h, by simp [iterNames], rfl⟩
   | cons a as ih =>
     intro f s s2 zs h
     cases f with
@@ -2490,14 +2491,18 @@ theorem C04_iter_names_append (as bs : List IterItem) :
       simp only [List.cons_append, iterNames] at h ⊢
       split at h
       · simp at h
-      · rename_i xs s1 hone
+      · rename_i ys' s1' hrest
+        obtain ⟨ys, s1, xs, h1, h2, rfl⟩ := ih f s s1' ys' hrest
+        refine ⟨ys, s1, ?_⟩
+        simp only [List.length_cons, Nat.add_sub_add_right]
+        rw [h2]
+        simp only []
         split at h
         · simp at h
-        · rename_i ys' s2' hrest
+        · rename_i xs1 s2' hone
           simp only [Except.ok.injEq, Prod.mk.injEq] at h
           obtain ⟨rfl, rfl⟩ := h
-          obtain ⟨xs2, s1', ys, h1, h2, rfl⟩ := ih f s1 s2' ys' hrest
-          refine ⟨xs ++ xs2, s1', ys, by simp [h1], by simpa using h2, by simp⟩
+          exact ⟨xs1 ++ xs, h1, by simp [hone], by simp⟩
 
 /-- an item whose name is a string literal (or `all`) -/
 inductive LitItem : IterItem → Prop
@@ -2507,26 +2512,46 @@ inductive LitItem : IterItem → Prop
   | location (g : String) : LitItem (.location (.lit (.str g)))
 
 /-- what one source contributes: `all` the sorted, duplicate-free light names; a light itself;
-a group or location its members in name order (nothing if there is no such group) -/
+a group or location its members in name order, each once (nothing if there is no such group) -/
 def itemNames (vm : State) : IterItem → List String
   | .all => vm.lightNames
   | .light (.lit (.str x)) => [x]
-  | .group (.lit (.str g)) => (vm.groupLights g).getD []
-  | .location (.lit (.str g)) => (vm.locationLights g).getD []
+  | .group (.lit (.str g)) => dedupSorted ((vm.groupLights g).getD [])
+  | .location (.lit (.str g)) => dedupSorted ((vm.locationLights g).getD [])
   | _ => []
+
+/-- what evaluating the sources leaves behind: the kind of the first source that is not a single
+light, in the `operand` register (the discovery instructions are told what to walk through it) -/
+def itemsOperand : List IterItem → S → S
+  | [], s => s
+  | .all :: rest, s => (itemsOperand rest s).setReg .operand (.operand .light)
+  | .group _ :: rest, s => (itemsOperand rest s).setReg .operand (.operand .group)
+  | .location _ :: rest, s => (itemsOperand rest s).setReg .operand (.operand .location)
+  | .light _ :: rest, s => itemsOperand rest s
+
+theorem itemsOperand_lights (items : List IterItem) (s : S) :
+    (itemsOperand items s).vm.lights = s.vm.lights := by
+  induction items with
+  | nil => rfl
+  | cons i rest ih => cases i <;> simpa [itemsOperand, S.setReg, State.setReg] using ih
+
+theorem itemNames_congr {vm vm' : State} (h : vm.lights = vm'.lights) (i : IterItem) :
+    itemNames vm i = itemNames vm' i := by
+  unfold itemNames
+  split <;> simp [State.lightNames, State.groupLights, State.locationLights, h]
 
 /-- **iter_names_order.**  For literal sources the visiting order of `repeat in i₁ and … and iₙ`
 is the concatenation, in item order, of each item's names (`itemNames`), and computing it
-changes nothing. -/
+changes nothing but the `operand` register. -/
 theorem C04_iter_names_order (items : List IterItem) (hl : ∀ i ∈ items, LitItem i) :
     ∀ (f : Nat) (s : S), items.length < f →
-      iterNames f items s = .ok ((items.map (itemNames s.vm)).flatten, s) := by
+      iterNames f items s = .ok ((items.map (itemNames s.vm)).flatten, itemsOperand items s) := by
   induction items with
   | nil =>
     intro f s hf
     cases f with
     | zero => omega
-    | succ f => simp [iterNames]
+    | succ f => simp [iterNames, itemsOperand]
   | cons a as ih =>
     intro f s hf
     cases f with
@@ -2534,15 +2559,23 @@ theorem C04_iter_names_order (items : List IterItem) (hl : ∀ i ∈ items, LitI
     | succ f =>
       have hf' : as.length < f := by simpa using hf
       have ih' := ih (fun i hi => hl i (by simp [hi])) f s hf'
+      have hc : ∀ i, itemNames (itemsOperand as s).vm i = itemNames s.vm i :=
+        fun i => itemNames_congr (itemsOperand_lights as s) i
       cases f with
       | zero => omega
       | succ f =>
         have ha := hl a (by simp)
         cases ha with
-        | all => simp [iterNames, ih', itemNames]
-        | light x => simp [iterNames, evalRv, ih', itemNames]
-        | group g => simp [iterNames, evalRv, ih', itemNames]
-        | location g => simp [iterNames, evalRv, ih', itemNames]
+        | all => simp [iterNames, ih', itemNames, itemsOperand, State.lightNames, itemsOperand_lights]
+        | light x => simp [iterNames, evalRv, ih', itemNames, itemsOperand]
+        | group g =>
+          have := hc (.group (.lit (.str g)))
+          simp only [itemNames] at this
+          simp [iterNames, evalRv, ih', itemNames, itemsOperand, this]
+        | location g =>
+          have := hc (.location (.lit (.str g)))
+          simp only [itemNames] at this
+          simp [iterNames, evalRv, ih', itemNames, itemsOperand, this]
 
 end IterNames
 
